@@ -68,6 +68,7 @@ fn main() {
             };
             lattice::run(path, &opts)
         }
+        "probes" => lattice::probes(),
         "fittrace" => {
             let mode = args.get(2).expect("mode");
             let out = args.get(3).expect("output file");
